@@ -94,7 +94,7 @@ def main():
         for it in items:
             f.write(json.dumps(it) + "\n")
     pr = subprocess.run(["timeout", "1200", binpath, pfile, ofile], capture_output=True, text=True)
-    outs = [json.loads(l) for l in open(ofile)] if os.path.exists(ofile) else []
+    outs = vlib.read_ndjson(ofile)
     if pr.returncode != 0 or len(outs) != len(items):
         rep.violation("crash", {"item": items[min(len(outs), len(items) - 1)]}, "the harness died at %s" % json.dumps(items[min(len(outs), len(items) - 1)]))
     seen = set()
